@@ -26,10 +26,10 @@ OutTargets(cs) == SubSeqWhereL([ti \in 1..Len(cs.tgt) |-> ti],
                                LAMBDA ti : \E si \in 1..Len(cs.x.types) : HasBank(cs.bank, FType(cs.x.types[si], cs.tgt[ti][1])))
 LayerOut(c, cs, x) ==
   LET W == WOf(cs)  tis == OutTargets(cs) IN
-  [j \in 1..Len(tis) |-> [o \in 1..cs.tgt[tis[j]][2] |->
-      LayerOutChan(c, x, cs.tgt[tis[j]][1], cs.tgt[tis[j]][2], W, cs.b, cs.bank, cs.mode, tis[j], o)]]
+  Eager([j \in 1..Len(tis) |-> Eager([o \in 1..cs.tgt[tis[j]][2] |->
+      LayerOutChan(c, x, cs.tgt[tis[j]][1], cs.tgt[tis[j]][2], W, cs.b, cs.bank, cs.mode, tis[j], o)])])
 
-ActX(g, x) == [x EXCEPT !.blks = [i \in 1..Len(x.blks) |-> [c \in 1..Len(x.blks[i]) |-> Act(g, x.blks[i][c])]]]
+ActX(g, x) == [x EXCEPT !.blks = Eager([i \in 1..Len(x.blks) |-> Eager([c \in 1..Len(x.blks[i]) |-> Act(g, x.blks[i][c])])])]
 BankInvariant(cs) == \A g \in {cs.gs[i] : i \in 1..Len(cs.gs)} :
                         \A i \in 1..Len(cs.bank.filts) : \A f \in 1..Len(cs.bank.filts[i]) :
                            Act(g, cs.bank.filts[i][f]) = cs.bank.filts[i][f]
